@@ -34,6 +34,26 @@ impl Config {
         let opts = if r.gen_bool(0.4) { OptSpec::default_with_seed(seed) } else { OptSpec::random(r, seed) };
         Config { opts, br: BrSpec::random(r) }
     }
+    /// Random configuration outside the option tuples on which bounded progress is not guaranteed
+    /// (see `OptSpec::class_thrash`): used by the properties whose subject is not termination.
+    pub fn random_progressing(r: &mut SmallRng) -> Config {
+        let mut c = Config::random(r);
+        if c.opts.class_thrash() {
+            if c.opts.no_learning {
+                c.opts.no_restarts = true;
+            } else {
+                c.opts.nogood_limit = 4000;
+            }
+        }
+        c
+    }
+    /// As `random_progressing`, and with learning on (the no-learning resolver does not support
+    /// assumptions: it flips them like decisions).
+    pub fn random_for_assumptions(r: &mut SmallRng) -> Config {
+        let mut c = Config::random_progressing(r);
+        c.opts.no_learning = false;
+        c
+    }
     pub fn default(seed: u64) -> Config {
         Config { opts: OptSpec::default_with_seed(seed), br: BrSpec::Default }
     }
@@ -71,7 +91,9 @@ pub fn describe(mode: &str, case: &Case) -> Outcome {
         "c12" | "c07" | "c08" | "c16" | "c06" | "c19" => {}
         "c09" => crate::props_b::cfg_c09(&mut r).label(&mut out),
         "c18" => crate::props_b::cfg_c18(case, &mut r).label(&mut out),
-        _ => Config::random(&mut r).label(&mut out),
+        "c02" | "c03" | "c05" => Config::random(&mut r).label(&mut out),
+        "c10" => Config::random_for_assumptions(&mut r).label(&mut out),
+        _ => Config::random_progressing(&mut r).label(&mut out),
     }
     out
 }
@@ -293,7 +315,7 @@ pub fn run_c01(case: &Case) -> Outcome {
     let m = &case.model;
     let mut out = Outcome::new(m);
     let mut r = SmallRng::seed_from_u64(case.sub);
-    let cfg = Config::random(&mut r);
+    let cfg = Config::random_for_assumptions(&mut r);
     cfg.label(&mut out);
     let path = r.gen_range(0..5);
     let nass = r.gen_range(1..4);
@@ -439,7 +461,7 @@ pub fn run_c04(case: &Case) -> Outcome {
     let m = &case.model;
     let mut out = Outcome::new(m);
     let mut r = SmallRng::seed_from_u64(case.sub);
-    let cfg = Config::random(&mut r);
+    let cfg = Config::random_progressing(&mut r);
     cfg.label(&mut out);
     let obj = gen::gen_view(&mut r, m, false, true);
     let maximise = r.gen_bool(0.5);
@@ -562,6 +584,13 @@ pub fn run_c05(case: &Case) -> Outcome {
         lists.push(l);
     }
     let all = m.all_assignments();
+    // input class: some assumption is false in every solution of the model
+    if lists.iter().flatten().any(|p| !sols.iter().any(|a| p.holds(a))) {
+        out.class("assume.model_false");
+    }
+    if lists.iter().any(|l| (0..l.len()).any(|i| (0..l.len()).any(|j| i != j && all_dom_exclusive(m, &l[i], &l[j])))) {
+        out.class("assume.contradictory_pair");
+    }
     pumpkin_solver::verif::enable();
     let res = guard(|| {
         let mut out = Outcome::default();
